@@ -20,6 +20,7 @@ PROFILES = {
     'queue': lambda rnd: sp.gen_script_queue(rnd),
     'composed': lambda rnd: sp.gen_composed(rnd),
     'deco': lambda rnd: sp.gen_deco(rnd),
+    'compfix': lambda rnd: sp.gen_compfix(rnd),
     'vacc': lambda rnd: sp.gen_vacc(rnd),
     'forced': lambda rnd: sp.gen_forced(rnd),
     'genlimit': lambda rnd: sp.gen_genlimit(rnd),
@@ -72,7 +73,7 @@ def main():
                 viol.append(dict(spec=spec_json, oracle=kind, reason=reason))
             index.append(dict(start=nexp, n=len(exp), spec=spec_json, events=info.get('events', 0), posted=info.get('posted', 0),
                               exc=info.get('exc'), handlers=info.get('handlers', []), nspecial=info.get('nspecial', 0),
-                              tags=info.get('tags', []),
+                              tags=info.get('tags', []), unknown=info.get('unknown', []),
                               hist=dict(done=info.get('hist_done', 0), injected=info.get('hist_injected', 0), cut=info.get('hist_cut', 0), exc=info.get('hist_exc'))))
             nexp += len(exp)
             fi.write("\n".join(inp) + "\n"); fe.write("\n".join(exp) + "\n")
